@@ -18,7 +18,9 @@ async fn main() {
     // second project: its git config names an excludes file (a discovered, origin-level, VCS-specific source)
     std::fs::write(fx.join("gc.txt"), "*.gc\n").unwrap();
     std::fs::write(fx.join("projb/.git/config"), format!("[core]\n\texcludesFile = {}\n", fx.join("gc.txt").display())).unwrap();
-    for p in ["proj", "projb"] { std::fs::write(fx.join(p).join(".gitignore"), "*.pv\n").unwrap(); std::fs::write(fx.join(p).join(".ignore"), "*.pg\n").unwrap(); }
+    // fourth project: NO VCS marker at the origin, but it ships a .gitignore (a source tarball): the file is still a VCS ignore file
+    std::fs::create_dir_all(fx.join("projc/src")).unwrap();
+    for p in ["proj", "projb", "projc"] { std::fs::write(fx.join(p).join(".gitignore"), "*.pv\n").unwrap(); std::fs::write(fx.join(p).join(".ignore"), "*.pg\n").unwrap(); }
     std::fs::write(fx.join("home/.gitignore"), "*.gg\n").unwrap();                  // global VCS ignore
     std::fs::write(fx.join("home/.config/watchexec/ignore"), "*.ga\n").unwrap();    // global application ignore
     std::fs::write(fx.join("ig.txt"), "*.ex\n").unwrap();                           // explicit --ignore-file
@@ -47,7 +49,7 @@ async fn main() {
     // third fixture: the same project as the first, but watchexec is started from a SUBDIRECTORY of the project origin (the probes lie
     // outside the working directory)
     std::fs::create_dir_all(fx.join("proj").join("app")).unwrap();
-    for (gc, pname, sub) in [(0, "proj", ""), (1, "projb", ""), (2, "proj", "app")] { let proj = fx.join(pname); std::env::set_current_dir(if sub.is_empty() { proj.clone() } else { proj.join(sub) }).unwrap();
+    for (gc, pname, sub) in [(0, "proj", ""), (1, "projb", ""), (2, "proj", "app"), (3, "projc", "")] { let proj = fx.join(pname); std::env::set_current_dir(if sub.is_empty() { proj.clone() } else { proj.join(sub) }).unwrap();
     for mask in 0..64u32 {
         let on: Vec<bool> = (0..6).map(|i| mask & (1 << i) != 0).collect();
         let mut rows = vec![];
